@@ -1,7 +1,7 @@
 """C07 — resolved state equals state resolution v2: structural clauses only (pipeline order and data flow, power events, sort keys, mainline, auth check, set algebra)."""
 import json, re
 from .. import dex as D, world as W, mir as M, authmodel as A
-from . import util as U, panic_common as PC
+from . import util as U, tables as T, panic_common as PC
 
 LEVEL = "other"
 EXPLANATION = (
@@ -241,6 +241,10 @@ def run(ctx):
     ctx.check(good, "C07.auth", "C07.auth:insert-iff-ok", w.where(f), bad_msg="the event is inserted on a path that does not come from auth_check's Ok result (or under a foreign key)")
 
     power_level_scan(ctx, w, "C07.power-level-scan")
+    # the sort key of a power event is its sender's power level as the authorization rules define it (entry in `users`, else users_default, the
+    # creator's 100 without a power-levels event, the defaults of absent fields): the level rules of C08 are part of this property
+    from . import C08 as _C08, C08_levels as _C08L
+    _C08L.run(ctx, w, _C08.load_model(), T.version_rules(ctx, w, ["authorization"]))
 
     # ---- set algebra -----------------------------------------------------------------------------------------------------
     ctx.rule("C07.sets", "get_auth_chain_diff keeps an id iff it is in fewer sets than there are sets; separate: unconflicted iff the (key, id) pair occurs in every state set")
